@@ -394,6 +394,15 @@ theorem run_mapI (n : Nat) (bs : Bytes) :
     majorTypeMap, shortCountIndefinite]
   split <;> simp_all
 
+theorem run_tag (sc n : Nat) (bs : Bytes) :
+    runMajor fix dec lf 6 sc n bs =
+      match dropRet (dec bs) with
+      | .err e => .err e
+      | .ok (v, r) => .ok (.tagged n v, false, r) := by
+  simp [runMajor, majorTypePositiveInt, majorTypeNegativeInt, majorTypeBytes, majorTypeUTF8, majorTypeArray,
+    majorTypeMap, majorTypeSematic]
+  split <;> simp_all
+
 end run
 
 
@@ -601,6 +610,9 @@ theorem startsOK_encode (x : W) (hv : valid x = true) : StartsOK breakMarker (en
   | simple n =>
     simp only [valid, decide_eq_true_eq] at hv
     exact ⟨_, _, rfl, byte_ne_break _ (by omega)⟩
+  | tag h t x =>
+    simp only [valid, Bool.and_eq_true] at hv
+    exact encHead_starts 6 h _ (by omega) hv.1 _
 
 theorem dropRet_ok (v : V) (b : Bool) (r : Bytes) : dropRet (.ok (v, b, r)) = .ok (v, r) := rfl
 theorem dropRet_err (e : Err) : dropRet (.err e) = .err e := rfl
@@ -636,6 +648,13 @@ theorem rt_step (fix : Bool) (f : Nat)
   | f64 p =>
     simp only [valid, decide_eq_true_eq] at hv
     exact float_rt fix f 27 8 .float p rest (by omega) (run_f64 fix _ _ _) (by rw [pow8]; exact hv)
+  | tag h t x =>
+    simp only [valid, Bool.and_eq_true] at hv
+    have hpos := encHead_pos 6 h t
+    have hx := ih x hv.2 (hfx.imp id (fun hn => by simpa [noIndefStr] using hn))
+      (by simp only [encode, List.length_append] at hl; omega) rest
+    simp only [encode, value, retOf, List.append_assoc]
+    rw [decT_head fix f 6 h t _ (by omega) hv.1, run_tag, hx, dropRet_ok]
   | undefined => exact (decT_special fix f 23 rest (by omega)).trans (run_other fix _ _ _ _ _ (Or.inr rfl))
   | simple n =>
     simp only [valid, decide_eq_true_eq] at hv
@@ -763,6 +782,16 @@ theorem pf_step (fix : Bool) (f : Nat)
     exact pf_strlike fix f 3 (Or.inr rfl) h s hv.1.1 hv.1.2 k hk
   | bool b => simp [encode] at hk; subst hk; rfl
   | null => simp [encode] at hk; subst hk; rfl
+  | tag h t x =>
+    simp only [valid, Bool.and_eq_true] at hv
+    simp only [encode] at hk ⊢
+    have hpos := encHead_pos 6 h t
+    by_cases hlt : k < (encHead 6 h t).length
+    · rw [take_append_of_lt _ _ _ hlt]
+      exact decT_head_pf fix f 6 h _ k (by omega) hlt
+    · rw [decT_head_take fix f 6 h _ _ k (by omega) hv.1 (by omega), run_tag,
+        ihpf x hv.2 (hfx.imp id (fun hn => by simpa [noIndefStr] using hn)) (k - (encHead 6 h t).length)
+          (by simp at hk; omega) (by omega), dropRet_err]
   | undefined => simp [encode] at hk; subst hk; rfl
   | simple n => simp [encode] at hk; subst hk; rfl
   | f16 p => exact float_pf fix f 25 2 (fun p => .float (widen16 p)) p (by omega) (run_f16 fix _ _ _) k hk
@@ -886,50 +915,56 @@ theorem vkey_value (k : W) (b : Bytes) (h : keyBytes k = some b) : vkey (value k
   cases k <;> simp [keyBytes] at h <;> subst h <;> simp [value, vkey]
 
 mutual
-theorem reprOK_value : ∀ x, valid x = true → reprOK (value x) = true
-  | .int _ _, _ => by simp [value, reprOK]
-  | .bytes _ _, _ => by simp [value, reprOK]
-  | .bytesI _, _ => by simp [value, reprOK]
-  | .str _ _, _ => by simp [value, reprOK]
-  | .strI _, _ => by simp [value, reprOK]
-  | .bool _, _ => by simp [value, reprOK]
-  | .null, _ => by simp [value, reprOK]
-  | .f16 _, _ => by simp [value, reprOK]
-  | .f32 _, _ => by simp [value, reprOK]
-  | .f64 _, _ => by simp [value, reprOK]
-  | .undefined, _ => by simp [value, reprOK]
-  | .simple _, _ => by simp [value, reprOK]
-  | .arr _ xs, h => by
+theorem reprOK_value : ∀ x, valid x = true → noTag x = true → reprOK (value x) = true
+  | .int _ _, _, _ => by simp [value, reprOK]
+  | .bytes _ _, _, _ => by simp [value, reprOK]
+  | .bytesI _, _, _ => by simp [value, reprOK]
+  | .str _ _, _, _ => by simp [value, reprOK]
+  | .strI _, _, _ => by simp [value, reprOK]
+  | .bool _, _, _ => by simp [value, reprOK]
+  | .null, _, _ => by simp [value, reprOK]
+  | .f16 _, _, _ => by simp [value, reprOK]
+  | .f32 _, _, _ => by simp [value, reprOK]
+  | .f64 _, _, _ => by simp [value, reprOK]
+  | .undefined, _, _ => by simp [value, reprOK]
+  | .simple _, _, _ => by simp [value, reprOK]
+  | .tag _ _ _, _, hn => by simp [noTag] at hn
+  | .arr _ xs, h, hn => by
     simp only [valid, Bool.and_eq_true] at h
-    simp [value, reprOK, reprOKL_value xs h.2]
-  | .arrI xs, h => by
+    simp only [noTag] at hn
+    simp [value, reprOK, reprOKL_value xs h.2 hn]
+  | .arrI xs, h, hn => by
     simp only [valid] at h
-    simp [value, reprOK, reprOKL_value xs h]
-  | .map _ kvs, h => by
+    simp only [noTag] at hn
+    simp [value, reprOK, reprOKL_value xs h hn]
+  | .map _ kvs, h, hn => by
     simp only [valid, Bool.and_eq_true] at h
-    have ⟨h1, h2⟩ := reprOKKV_value kvs h.1.2
+    simp only [noTag] at hn
+    have ⟨h1, h2⟩ := reprOKKV_value kvs h.1.2 hn
     simp [value, reprOK, h1, h2, h.2]
-  | .mapI kvs, h => by
+  | .mapI kvs, h, hn => by
     simp only [valid, Bool.and_eq_true] at h
-    have ⟨h1, h2⟩ := reprOKKV_value kvs h.1
+    simp only [noTag] at hn
+    have ⟨h1, h2⟩ := reprOKKV_value kvs h.1 hn
     simp [value, reprOK, h1, h2, h.2]
-theorem reprOKL_value : ∀ xs, validL xs = true → reprOKL (valueL xs) = true
-  | [], _ => by simp [valueL, reprOKL]
-  | x :: xs, h => by
+theorem reprOKL_value : ∀ xs, validL xs = true → noTagL xs = true → reprOKL (valueL xs) = true
+  | [], _, _ => by simp [valueL, reprOKL]
+  | x :: xs, h, hn => by
     simp only [validL, Bool.and_eq_true] at h
-    simp [valueL, reprOKL, reprOK_value x h.1, reprOKL_value xs h.2]
-theorem reprOKKV_value : ∀ kvs, validKV kvs = true →
+    simp only [noTagL, Bool.and_eq_true] at hn
+    simp [valueL, reprOKL, reprOK_value x h.1 hn.1, reprOKL_value xs h.2 hn.2]
+theorem reprOKKV_value : ∀ kvs, validKV kvs = true → noTagKV kvs = true →
     reprOKKV (valueKV kvs) = true ∧ vkeys (valueKV kvs) = keysOf kvs
-  | [], _ => by simp [valueKV, reprOKKV, vkeys, keysOf]
-  | (k, v) :: r, h => by
+  | [], _, _ => by simp [valueKV, reprOKKV, vkeys, keysOf]
+  | (k, v) :: r, h, hn => by
     simp only [validKV, Bool.and_eq_true] at h
+    simp only [noTagKV, Bool.and_eq_true] at hn
     obtain ⟨⟨⟨hk, _⟩, hv⟩, hr⟩ := h
     obtain ⟨b, hb⟩ := Option.isSome_iff_exists.mp hk
     have hvk := vkey_value k b hb
-    have ⟨h1, h2⟩ := reprOKKV_value r hr
-    simp [valueKV, reprOKKV, vkeys, keysOf, hvk, hb, reprOK_value v hv, h1, h2]
+    have ⟨h1, h2⟩ := reprOKKV_value r hr hn.2
+    simp [valueKV, reprOKKV, vkeys, keysOf, hvk, hb, reprOK_value v hv hn.1.2, h1, h2]
 end
-
 
 /-! ### every in-domain value has a valid (definite-length, smallest-head) wire tree -/
 
@@ -950,52 +985,52 @@ theorem keyBytes_canon (k : V) : keyBytes (canon k) = vKeyBytes k := by
 
 mutual
 theorem canon_ok : ∀ v, inDomain v = true →
-    valid (canon v) = true ∧ value (canon v) = v ∧ noIndefStr (canon v) = true
-  | .null, _ => by simp [canon, valid, value, noIndefStr]
-  | .bool _, _ => by simp [canon, valid, value, noIndefStr]
+    valid (canon v) = true ∧ value (canon v) = v ∧ noIndefStr (canon v) = true ∧ noTag (canon v) = true
+  | .null, _ => by simp [canon, valid, value, noIndefStr, noTag]
+  | .bool _, _ => by simp [canon, valid, value, noIndefStr, noTag]
   | .int i, h => by
     simp only [inDomain, Bool.and_eq_true, decide_eq_true_eq] at h
     have := headOk_smallest (if i < 0 then (-1 - i).toNat else i.toNat) (by split <;> omega)
-    simp [canon, valid, value, noIndefStr, this]
+    simp [canon, valid, value, noIndefStr, noTag, this]
     omega
   | .float b, h => by
     simp only [inDomain, decide_eq_true_eq] at h
-    simp [canon, valid, value, noIndefStr, h]
+    simp [canon, valid, value, noIndefStr, noTag, h]
   | .str s, h => by
     simp only [inDomain, Bool.and_eq_true, decide_eq_true_eq] at h
-    simp [canon, valid, value, noIndefStr, headOk_smallest s.length (by omega), h.1, h.2]
+    simp [canon, valid, value, noIndefStr, noTag, headOk_smallest s.length (by omega), h.1, h.2]
   | .bytes b, h => by
     simp only [inDomain, decide_eq_true_eq] at h
-    simp [canon, valid, value, noIndefStr, headOk_smallest b.length (by omega), h]
+    simp [canon, valid, value, noIndefStr, noTag, headOk_smallest b.length (by omega), h]
   | .arr xs, h => by
     simp only [inDomain, Bool.and_eq_true, decide_eq_true_eq] at h
-    have ⟨h1, h2, h3, h4⟩ := canonL_ok xs h.2
-    simp [canon, valid, value, noIndefStr, h1, h2, h3, h4, headOk_smallest xs.length h.1]
+    have ⟨h1, h2, h3, h4, h5⟩ := canonL_ok xs h.2
+    simp [canon, valid, value, noIndefStr, noTag, h1, h2, h3, h4, h5, headOk_smallest xs.length h.1]
   | .map kvs, h => by
     simp only [inDomain, Bool.and_eq_true, decide_eq_true_eq] at h
-    have ⟨h1, h2, h3, h4, h5⟩ := canonKV_ok kvs h.1.2
-    simp [canon, valid, value, noIndefStr, h1, h2, h3, h4, h5, h.2, headOk_smallest kvs.length h.1.1]
+    have ⟨h1, h2, h3, h4, h5, h6⟩ := canonKV_ok kvs h.1.2
+    simp [canon, valid, value, noIndefStr, noTag, h1, h2, h3, h4, h5, h6, h.2, headOk_smallest kvs.length h.1.1]
 theorem canonL_ok : ∀ xs, inDomainL xs = true →
     validL (canonL xs) = true ∧ valueL (canonL xs) = xs ∧ (canonL xs).length = xs.length ∧
-      noIndefStrL (canonL xs) = true
-  | [], _ => by simp [canonL, validL, valueL, noIndefStrL]
+      noIndefStrL (canonL xs) = true ∧ noTagL (canonL xs) = true
+  | [], _ => by simp [canonL, validL, valueL, noIndefStrL, noTagL]
   | x :: xs, h => by
     simp only [inDomainL, Bool.and_eq_true] at h
-    have ⟨a1, a2, a3⟩ := canon_ok x h.1
-    have ⟨b1, b2, b3, b4⟩ := canonL_ok xs h.2
-    simp [canonL, validL, valueL, noIndefStrL, a1, a2, a3, b1, b2, b3, b4]
+    have ⟨a1, a2, a3, a4⟩ := canon_ok x h.1
+    have ⟨b1, b2, b3, b4, b5⟩ := canonL_ok xs h.2
+    simp [canonL, validL, valueL, noIndefStrL, noTagL, a1, a2, a3, a4, b1, b2, b3, b4, b5]
 theorem canonKV_ok : ∀ kvs, inDomainKV kvs = true →
     validKV (canonKV kvs) = true ∧ valueKV (canonKV kvs) = kvs ∧ (canonKV kvs).length = kvs.length ∧
-      keysOf (canonKV kvs) = vKeysOf kvs ∧ noIndefStrKV (canonKV kvs) = true
-  | [], _ => by simp [canonKV, validKV, valueKV, keysOf, vKeysOf, noIndefStrKV]
+      keysOf (canonKV kvs) = vKeysOf kvs ∧ noIndefStrKV (canonKV kvs) = true ∧ noTagKV (canonKV kvs) = true
+  | [], _ => by simp [canonKV, validKV, valueKV, keysOf, vKeysOf, noIndefStrKV, noTagKV]
   | (k, v) :: r, h => by
     simp only [inDomainKV, Bool.and_eq_true] at h
     obtain ⟨⟨⟨hk, hk2⟩, hv⟩, hr⟩ := h
-    have ⟨a1, a2, a3⟩ := canon_ok k hk2
-    have ⟨c1, c2, c3⟩ := canon_ok v hv
-    have ⟨b1, b2, b3, b4, b5⟩ := canonKV_ok r hr
-    simp [canonKV, validKV, valueKV, keysOf, vKeysOf, noIndefStrKV, keyBytes_canon, hk, a1, a2, a3, c1, c2, c3,
-      b1, b2, b3, b4, b5]
+    have ⟨a1, a2, a3, a4⟩ := canon_ok k hk2
+    have ⟨c1, c2, c3, c4⟩ := canon_ok v hv
+    have ⟨b1, b2, b3, b4, b5, b6⟩ := canonKV_ok r hr
+    simp [canonKV, validKV, valueKV, keysOf, vKeysOf, noIndefStrKV, noTagKV, keyBytes_canon, hk, a1, a2, a3, a4, c1, c2,
+      c3, c4, b1, b2, b3, b4, b5, b6]
 end
 
 end Proofs.C16.Cbor
